@@ -1,6 +1,56 @@
-(** C01 - placeholder until the completeness theorems land. *)
-From Coq Require Import List.
-From BP Require Import Base.Field Model.Verifier.
-Theorem C01_placeholder : forall (K : Fld) n T, length (a_Gb (acc_init K n T)) = T.
-Proof. intros. unfold acc_init; cbn. now rewrite repeat_length. Qed.
-Print Assumptions C01_placeholder.
+(** C01 — completeness.
+    Proved so far: completeness of the textbook zero-knowledge weighted-inner-product argument
+    (Model/Spec.v) for EVERY number of rounds, half-length, number of blinding generators, field and
+    vector space, and that the prover's vector commitment does not depend on the capacity.
+    The full property statement [C01_completeness_statement] is kept below; the two refinement steps
+    that connect it to these theorems are listed at the end (they are exercised on every run by the
+    coordinate-level correspondence of Exec/ProveExec and Exec/VerifyExec, not yet proved). *)
+From Coq Require Import List Arith NArith Bool.
+From BP Require Import Base.Field Model.Spec Model.Verifier Model.Prover Proofs.WipP Proofs.GuardsP.
+Import ListNotations.
+
+(** completeness of the whole argument, any number of rounds *)
+Theorem C01_wip_complete : forall (K : Fld), FldOk K -> forall (M : Mod K), ModOk K M -> forall (H : M) (Gb : list M)
+  y, y <> f0 K -> forall rs (a b alpha : list K) (G Hs : list M) e r s d eta,
+  let k := length rs in
+  length a = Nat.pow 2 k -> length b = Nat.pow 2 k -> length G = Nat.pow 2 k -> length Hs = Nat.pow 2 k ->
+  Forall (wf_round K (length alpha)) rs -> length d = length alpha -> length eta = length alpha ->
+  let '(af, bf, alphaf) := final_state K y rs a b alpha in
+  let '(Pf, Gf, Hf) := verifier_fold K M y (map r_e rs) (prover_msgs K M H Gb y rs a b alpha G Hs) (Com K M H Gb y a b alpha G Hs) G Hs in
+  let a0 := hd (f0 K) af in let b0 := hd (f0 K) bf in let G0 := hd (v0 M) Gf in let H0 := hd (v0 M) Hf in
+  final_check K M H Gb y e Pf (final_A1 K M H Gb y a0 b0 r s d G0 H0) (final_B K M H Gb y r s eta)
+     (fadd K r (fmul K a0 e)) (fadd K s (fmul K b0 e)) (final_d1 K e alphaf d eta) G0 H0.
+Proof. intros K Kok M Mok H Gb. exact (wip_complete K Kok M Mok H Gb). Qed.
+Print Assumptions C01_wip_complete.
+
+(** the prover's vector commitment through the interleaved, zero-padded table is the textbook one *)
+Theorem C01_commit_A_textbook : forall (K : Fld), FldOk K -> forall (M : Mod K), ModOk K M ->
+  forall (g : gens K M) aL aR alpha padding,
+  length aL = length aR -> length aL <= length (g_G g) -> length aL <= length (g_Hv g) ->
+  commit_A K M g aL aR alpha padding = vadd M (vadd M (msm aL (g_G g)) (msm aR (g_Hv g))) (msm alpha (g_Gb g)).
+Proof. exact commit_A_capacity_independent. Qed.
+Print Assumptions C01_commit_A_textbook.
+
+(** THE FULL STATEMENT (not yet a theorem): for a valid witness the code-shaped prover's output makes
+    the code-shaped verifier's final multiscalar product vanish.  [msm] runs over the verifier's scalars
+    against (table ++ commitments ++ [A1; B; A] ++ L ++ R ++ Gb ++ [H]). *)
+Definition C01_completeness_statement : Prop :=
+  forall (K : Fld), FldOk K -> forall (M : Mod K), ModOk K M ->
+  forall bits cap (g : gens K M) values promises blindings (nn : nonces K) (ch : pchals K) (w : K) ofN,
+  let m := length values in
+  length (g_G g) = bits * cap -> length (g_Hv g) = bits * cap -> m <= cap -> bits * m = 2 ^ length (pc_es ch) ->
+  pc_y ch <> f0 K -> fsub K (pc_y ch) (f1 K) <> f0 K -> pc_z ch <> f0 K -> pc_e ch <> f0 K -> Forall (fun e => e <> f0 K) (pc_es ch) ->
+  length promises = m -> length blindings = m ->
+  Forall (fun vp => match snd vp with Some mv => (mv <= fst vp)%N | None => True end) (combine values promises) ->
+  Forall (fun vp => (offset_value (fst vp) (snd vp) < 2 ^ N.of_nat bits)%N) (combine values promises) ->
+  (forall a b, ofN (a + b)%N = fadd K (ofN a) (ofN b)) -> ofN 1%N = f1 K ->
+  let p := prove_core K M bits cap g values promises blindings nn ch in
+  let commitments := map (fun vr => commit K M g (ofN (fst vr)) (snd vr)) (combine values blindings) in
+  let t := proof_terms K bits promises (mkVproof K (pp_d1 p) (pp_r1 p) (pp_s1 p)) (mkChals K (pc_y ch) (pc_z ch) (pc_es ch) (pc_e ch)) w in
+  vadd M (vadd M (msm (t_gi t) (g_G g)) (msm (t_hi t) (g_Hv g)))
+         (msm (t_V t ++ [t_A1 t; t_B t; t_A t] ++ t_L t ++ t_R t ++ t_Gb t ++ [t_H t])
+              (commitments ++ [pp_A1 p; pp_B p; pp_A p] ++ pp_L p ++ pp_R p ++ g_Gb g ++ [g_H g])) = v0 M.
+(** Missing to derive it from the theorems above: (1) [prover_refines_spec] — the code-shaped folding loop
+    of Model/Prover.v emits the messages of Model/Spec.v; (2) [range_reduction] + [verifier_equiv] — the
+    code-shaped verifier scalars equal the textbook check on P_0 (C02).  Both are checked coordinate by
+    coordinate against the implementation on every run. *)
